@@ -1131,6 +1131,7 @@ class Engine:
         finally:
             self._lazy_bind = False
         fr_c.vars.update(bound)
+        fr_c.vars.update({'p_' + k_: v_ for k_, v_ in bound.items()})
         nm = (fi.qualname if fi else c.qualname).split('afkak.')[-1]
         self.callcount[nm] = self.callcount.get(nm, 0) + 1
         siteid = '%s#%d' % (nm, self.callcount[nm])
